@@ -1,1 +1,215 @@
-//! Trainer-side references (DESIGN 4.5).
+//! Trainer-side references (DESIGN 4.5): rewriter, template expansion, model merge.
+use std::collections::BTreeMap;
+
+use vibrato::verif_hooks::train::ModelView;
+
+// ---------------------------------------------------------------------------------------------
+// RefRewriter (C17): first matching rule in file order
+
+pub fn pattern_matches(p: &str, f: &str) -> bool {
+    if p == "*" {
+        true
+    } else if p.len() >= 2 && p.starts_with('(') && p.ends_with(')') {
+        p[1..p.len() - 1].split('|').any(|alt| alt == f)
+    } else {
+        p == f
+    }
+}
+
+/// `rules`: (pattern cells, rewrite cells). Returns the rewritten features or None.
+pub fn ref_rewrite(rules: &[(Vec<String>, Vec<String>)], features: &[String]) -> Option<Vec<String>> {
+    for (pat, rw) in rules {
+        if pat.len() > features.len() {
+            continue;
+        }
+        if pat.iter().zip(features).all(|(p, f)| pattern_matches(p, f)) {
+            return Some(
+                rw.iter()
+                    .map(|r| {
+                        if let Some(n) = r.strip_prefix('$').filter(|d| !d.is_empty() && d.chars().all(|c| c.is_ascii_digit())) {
+                            let n: usize = n.parse().unwrap();
+                            features.get(n - 1).cloned().unwrap_or_else(|| "*".to_string())
+                        } else {
+                            r.clone()
+                        }
+                    })
+                    .collect(),
+            );
+        }
+    }
+    None
+}
+
+// ---------------------------------------------------------------------------------------------
+// RefTemplates (C18, C20): MeCab template expansion
+
+/// Expands a template. `kind` is 'F', 'L' or 'R'. Returns None when an optional reference
+/// (`%X?[i]`) names a feature that is '*' or absent.
+pub fn ref_expand(template: &str, kind: char, features: &[String], cate_id: u32) -> Option<String> {
+    let b: Vec<char> = template.chars().collect();
+    let mut out = String::new();
+    let mut i = 0;
+    while i < b.len() {
+        if b[i] == '%' {
+            // %t (unigram only)
+            if kind == 'F' && i + 1 < b.len() && b[i + 1] == 't' {
+                out.push_str(&cate_id.to_string());
+                i += 2;
+                continue;
+            }
+            if i + 1 < b.len() && b[i + 1] == kind {
+                let mut j = i + 2;
+                let optional = j < b.len() && b[j] == '?';
+                if optional {
+                    j += 1;
+                }
+                if j < b.len() && b[j] == '[' {
+                    let mut k = j + 1;
+                    let mut digits = String::new();
+                    while k < b.len() && b[k].is_ascii_digit() {
+                        digits.push(b[k]);
+                        k += 1;
+                    }
+                    if !digits.is_empty() && k < b.len() && b[k] == ']' {
+                        let idx: usize = digits.parse().unwrap();
+                        let val = features.get(idx).map(|s| s.as_str()).unwrap_or("*");
+                        if optional && val == "*" {
+                            return None;
+                        }
+                        out.push_str(val);
+                        i = k + 1;
+                        continue;
+                    }
+                }
+            }
+        }
+        out.push(b[i]);
+        i += 1;
+    }
+    Some(out)
+}
+
+// ---------------------------------------------------------------------------------------------
+// RefMerge (C14, C16, C18): recomputes merged weights, connection classes and the matrix from
+// the raw model exposed by the hook, summing in the definition's order.
+
+#[derive(Clone, Debug)]
+pub struct Merged {
+    pub weight: Vec<f64>,
+    pub left_id: Vec<u32>,
+    pub right_id: Vec<u32>,
+    /// left class j (1-based) -> its bigram_right feature list
+    pub left_lists: Vec<Vec<Option<u32>>>,
+    pub right_lists: Vec<Vec<Option<u32>>>,
+    /// matrix[right class][left class] (0 = BOS/EOS), absent = 0
+    pub matrix: Vec<BTreeMap<u32, f64>>,
+    pub max_abs: f64,
+}
+
+pub fn ref_merge(v: &ModelView) -> Merged {
+    let bw: Vec<BTreeMap<u32, u32>> = v.bigram_weight_indices.iter().map(|l| l.iter().copied().collect()).collect();
+    let mut weight = vec![];
+    let mut left_id = vec![];
+    let mut right_id = vec![];
+    let mut left_lists: Vec<Vec<Option<u32>>> = vec![];
+    let mut right_lists: Vec<Vec<Option<u32>>> = vec![];
+    for (uni, bright, bleft) in &v.feature_sets {
+        let mut w = 0.0f64;
+        for fid in uni {
+            if let Some(Some(widx)) = v.unigram_weight_indices.get((*fid - 1) as usize) {
+                w += v.weights[(*widx - 1) as usize];
+            }
+        }
+        weight.push(w);
+        let l = match left_lists.iter().position(|x| x == bright) {
+            Some(p) => p + 1,
+            None => {
+                left_lists.push(bright.clone());
+                left_lists.len()
+            }
+        };
+        let r = match right_lists.iter().position(|x| x == bleft) {
+            Some(p) => p + 1,
+            None => {
+                right_lists.push(bleft.clone());
+                right_lists.len()
+            }
+        };
+        left_id.push(l as u32);
+        right_id.push(r as u32);
+    }
+    let get = |a: usize, b: u32| -> Option<f64> { bw.get(a).and_then(|m| m.get(&b)).map(|&widx| v.weights[widx as usize]) };
+    let mut matrix = vec![];
+    let mut m0 = BTreeMap::new();
+    for (j, l) in left_lists.iter().enumerate() {
+        let mut w = 0.0;
+        for fid in l.iter().flatten() {
+            if let Some(x) = get(0, *fid) {
+                w += x;
+            }
+        }
+        if w.abs() >= f64::EPSILON {
+            m0.insert((j + 1) as u32, w);
+        }
+    }
+    matrix.push(m0);
+    for r in &right_lists {
+        let mut m = BTreeMap::new();
+        let mut w = 0.0;
+        for fid in r.iter().flatten() {
+            if let Some(x) = get(*fid as usize, 0) {
+                w += x;
+            }
+        }
+        if w.abs() >= f64::EPSILON {
+            m.insert(0, w);
+        }
+        for (j, l) in left_lists.iter().enumerate() {
+            let mut w = 0.0;
+            for (a, b) in r.iter().zip(l) {
+                if let (Some(a), Some(b)) = (a, b) {
+                    if let Some(x) = get(*a as usize, *b) {
+                        w += x;
+                    }
+                }
+            }
+            if w.abs() >= f64::EPSILON {
+                m.insert((j + 1) as u32, w);
+            }
+        }
+        matrix.push(m);
+    }
+    let mut max_abs = 0f64;
+    for w in &weight {
+        max_abs = max_abs.max(w.abs());
+    }
+    for m in &matrix {
+        for w in m.values() {
+            max_abs = max_abs.max(w.abs());
+        }
+    }
+    Merged {
+        weight,
+        left_id,
+        right_id,
+        left_lists,
+        right_lists,
+        matrix,
+        max_abs,
+    }
+}
+
+impl Merged {
+    pub fn scale(&self) -> f64 {
+        f64::from(i16::MAX) / self.max_abs
+    }
+    /// trunc(-w * 32767 / max|w|) as the emitted i16 cost.
+    pub fn cost16(&self, w: f64) -> i16 {
+        (-w * self.scale()) as i16
+    }
+    /// true if the scaled value is within 1e-6 of an integer (±1 allowance; counted by callers)
+    pub fn near_integer(&self, w: f64) -> bool {
+        let x = -w * self.scale();
+        x.is_finite() && (x - x.round()).abs() < 1e-6 && x != x.trunc()
+    }
+}
